@@ -1,5 +1,6 @@
 import Driver.TirJson
 import Tx3Model.Wire
+import Tx3Model.WireDec
 
 /-! Judges for C11 (wire round trip, version gate, garbage) and C18 (determinism). -/
 
@@ -36,6 +37,14 @@ def judgeC11 (j : Json) : R Verdict := do
       tags := tags ++ ["unordered-container"]
       if model.length != real.length || sortedBytes model != sortedBytes real then corr := corr ++ ["bytes-up-to-order"]
     else if model != real then corr := corr ++ ["bytes"]
+    -- the model reader on the real bytes gives back the tree that was encoded
+    if !(tx.slots.all Wire.Shaped) then corr := corr ++ ["shaped"]
+    else if !unordered then
+      match Wire.fromBytes real with
+      | some t' =>
+        if (txJson (canonTx t')).compress != (txJson (canonTx tx)).compress then corr := corr ++ ["model-reader:differs"]
+        else tags := tags ++ ["model-reader-ok"]
+      | none => corr := corr ++ ["model-reader:rejects"]
     let rt ← field obs "roundtrip"
     if !(isNull (fieldD rt "panic")) then spec := spec ++ ["no-panic:from_bytes"]
     else
